@@ -63,7 +63,8 @@ fn reference(s: Strat, p: Pred, req: &Req, inner: &Result<Resp, InnerErr>, value
                 Strat::FromError => (Res::Ok(Resp { serial: 779_000 + e.id, req: 0, key: e.kind }), 0, 0),
                 Strat::FromRequestError => (Res::Ok(Resp { serial: 780_000 + e.id, req: req.id, key: req.key }), 0, 0),
                 Strat::ServiceOk => (Res::Ok(Resp { serial: 781_000, req: req.id, key: req.key }), 0, 1),
-                Strat::ServiceFailing => (Res::FallbackFailed(InnerErr { id: 999_000 + req.id, kind: 9 }), 0, 1),
+                // the backup's own error is of a kind the predicate accepts (0) or refuses (9), by request
+                Strat::ServiceFailing => (Res::FallbackFailed(InnerErr { id: 999_000 + req.id, kind: if req.key == 3 { 9 } else { 0 } }), 0, 1),
                 Strat::Exception => (Res::Inner(InnerErr { id: e.id + 5_000, kind: e.kind }), 0, 0),
             }
         }
@@ -79,15 +80,17 @@ fn main() {
     }
     let replaying = cli.replay.clone().map(|p| trv_core::load_replay(&p));
     let mut rep = Report::new("C17", cli.tier, "exploration");
-    rep.rule = "full grid: 7 strategies (value, value function, from error, from request and error, backup service ok / failing, error transformation) x 4 predicates (none, accept, reject, by error kind) x both builder call orders x every sequence of 3 inner outcomes over {ok, error kind 0, error kind 1} on one service instance and a clone, with distinguishable requests; outer results, inner and backup call logs compared with a pure reference function. distinct = distinct (strategy, predicate, inner outcome, observed result class)".into();
+    rep.rule = "full grid: 7 strategies (value, value function, from error, from request and error, backup service ok / failing, error transformation) x 4 predicates (none, accept, reject, by error kind) x both builder call orders x every sequence of 3 (thorough: 5) inner outcomes over {ok, error kind 0, error kind 1} on one service instance and a clone, with distinguishable requests; outer results, inner and backup call logs compared with a pure reference function. distinct = distinct (strategy, predicate, inner outcome, observed result class)".into();
     let mut reported = std::collections::BTreeSet::new();
     let outs = [Out::Ok, Out::Err(0), Out::Err(1)];
     for s in STRATS {
         for p in PREDS {
-            for code in 0..54usize {
-                let predicate_first = code >= 27;
-                let code = code % 27;
-                let script: Vec<Out> = vec![outs[code % 3], outs[(code / 3) % 3], outs[(code / 9) % 3]];
+            let len = cli.tier.pick(3u32, 5);
+            let total = 3usize.pow(len);
+            for code in 0..2 * total {
+                let predicate_first = code >= total;
+                let code = code % total;
+                let script: Vec<Out> = (0..len).map(|i| outs[(code / 3usize.pow(i)) % 3]).collect();
                 let w = World::new(0, 10, Mode::Script, 1);
                 {
                     let mut g = w.inner.lock().unwrap();
@@ -126,7 +129,7 @@ fn main() {
                         let l = backup_log.clone();
                         b.service(move |r: Req| {
                             l.lock().unwrap().push(r.clone());
-                            async move { Err::<Resp, _>(InnerErr { id: 999_000 + r.id, kind: 9 }) }
+                            async move { Err::<Resp, _>(InnerErr { id: 999_000 + r.id, kind: if r.key == 3 { 9 } else { 0 } }) }
                         })
                     }
                     Strat::Exception => b.exception(|e: InnerErr| InnerErr { id: e.id + 5_000, kind: e.kind }),
@@ -146,7 +149,7 @@ fn main() {
                 let mut backup_expected: Vec<Req> = vec![];
                 for (i, _o) in script.iter().enumerate() {
                     let req = Req::new(100 + i as u32, (i % 2) as u8 + 3);
-                    let h = if i == 1 { &mut clone } else { &mut svc };
+                    let h = if i % 2 == 1 { &mut clone } else { &mut svc };
                     let before = w.inner.lock().unwrap().calls.len();
                     let got = w.block_on(async {
                         let _ = futures::future::poll_fn(|cx| Service::<Req>::poll_ready(h, cx)).await;
